@@ -138,7 +138,18 @@ func genC10cl(t *rapid.T) clCase {
 		if rapid.IntRange(0, 3).Draw(t, "hw") != 0 {
 			c.Ops = append(c.Ops, clOp{Op: "sethw", Sel: rapid.IntRange(0, 1000).Draw(t, "sel")})
 		}
-		c.Ops = append(c.Ops, genCleanOp(t, rapid.Bool().Draw(t, "compact"), rapid.IntRange(0, 3).Draw(t, "ret") != 0))
+		if rapid.IntRange(0, 3).Draw(t, "split") == 0 {
+			c.Ops = append(c.Ops, clOp{Op: "split"})
+		}
+		for i, n := 0, rapid.IntRange(0, 3).Draw(t, "nts"); i < n; i++ {
+			c.Ops = append(c.Ops, clOp{Op: "tslookup", Cls: rapid.IntRange(0, 2).Draw(t, "tscls"), Sel: rapid.IntRange(0, 1000).Draw(t, "tssel")})
+		}
+		if rapid.IntRange(0, 2).Draw(t, "clean") != 0 {
+			c.Ops = append(c.Ops, genCleanOp(t, rapid.Bool().Draw(t, "compact"), rapid.IntRange(0, 3).Draw(t, "ret") != 0))
+		}
+		for i, n := 0, rapid.IntRange(0, 3).Draw(t, "nts2"); i < n; i++ {
+			c.Ops = append(c.Ops, clOp{Op: "tslookup", Cls: rapid.IntRange(0, 2).Draw(t, "tscls"), Sel: rapid.IntRange(0, 1000).Draw(t, "tssel")})
+		}
 		if rapid.IntRange(0, 3).Draw(t, "ro") == 0 {
 			c.Ops = append(c.Ops, clOp{Op: "readonly", N: rapid.IntRange(0, 1).Draw(t, "on")})
 		}
